@@ -22,7 +22,7 @@ import (
 )
 
 // ruleMore describes what was added to the exploration in the build phase.
-const ruleMore = "; the injected error is plain, wraps a ParseError of its own, or is joined; evaluation results are tagged values, nil or integers"
+const ruleMore = "; texts cut after a drawn token and continued with text that cannot be scanned or with a token that cannot follow: the callbacks of everything shifted before must have fired; the injected error is plain, wraps a ParseError of its own, or is joined; evaluation results are tagged values, nil or integers"
 
 func TestMain(m *testing.M) { rec.Main(m, "C18") }
 
@@ -35,6 +35,9 @@ type input struct {
 	Text   string `json:"text"`
 	Mode   string `json:"mode"` // parse | evaluate
 	FailAt int    `json:"fail_at"`
+	// mode broken: the text is cut after token FailAt-1 and continued with Tail
+	Tail    string `json:"tail,omitempty"`
+	Lexical bool   `json:"lexical,omitempty"`
 }
 
 // injected errors: a plain one, one that wraps a parse error of its own below its top level (a callback may itself have
@@ -158,6 +161,73 @@ func checkParse(text string, failAt int) (reductions int, err error) {
 		return reductions, fmt.Errorf("callback %d failed, but %d callbacks fired in total", failAt, step)
 	}
 	return reductions, oneSided(text, e, failAt)
+}
+
+// checkBrokenTail: the text of a valid specification is cut after its k-th token and continued with text that cannot be
+// scanned (lexical) or with a token no specification can continue with (syntax). Everything before the cut is a viable
+// prefix, so token 0..k-1 have been shifted when the error is met: their callbacks and the reductions in between must
+// have fired, in derivation order, exactly as for the complete text; after a lexical error nothing else may fire, before a
+// syntax error only reductions may follow. The parse must return an error.
+func checkBrokenTail(text string, k int, tail string, lexical bool) error {
+	e, err := expect(text)
+	if err != nil {
+		return err
+	}
+	if k < 1 || k > len(e.toks) {
+		return nil
+	}
+	last := e.toks[k-1]
+	runes := []rune(text)
+	cut := last.Off + len([]rune(last.Src))
+	broken := string(runes[:cut]) + tail
+	// what must have happened before the error: the events of the derivation up to the shift of token k-1
+	upto := -1
+	for i, ev := range e.events {
+		if ev == k-1 {
+			upto = i
+		}
+	}
+	if upto < 0 {
+		return fmt.Errorf("harness: token %d is not in the derivation", k-1)
+	}
+	want := e.events[:upto+1]
+	var got []int
+	var rerr error
+	if perr := rec.Guard(func() {
+		var p *ebnf.Parser
+		p, rerr = ebnf.New("t.ebnf", strings.NewReader(broken))
+		if rerr != nil {
+			return
+		}
+		n := 0
+		rerr = p.Parse(func(tok *lexer.Token) error {
+			got = append(got, n)
+			n++
+			return nil
+		}, func(i int) error {
+			got = append(got, -1-i)
+			return nil
+		})
+	}); perr != nil {
+		return perr
+	}
+	if rerr == nil {
+		return fmt.Errorf("the text %q is no specification (it ends in %q after token %d), but Parse reports success", broken, tail, k-1)
+	}
+	for i := range want {
+		if i >= len(got) {
+			return fmt.Errorf("the text ends in %q after token %d (%s %q): %d callbacks fired before the error, but the %d tokens before it were shifted and the derivation has %d steps up to that shift; missing: %s\ntext: %q", tail, k-1, last.Kind, last.Lexeme, len(got), k, len(want), describeEvent(e, want[i]), broken)
+		}
+		if got[i] != want[i] {
+			return fmt.Errorf("the text ends in %q after token %d: callback %d is %s, the derivation has %s at this step\ntext: %q", tail, k-1, i, describeEvent(e, got[i]), describeEvent(e, want[i]), broken)
+		}
+	}
+	for _, ev := range got[len(want):] {
+		if ev >= 0 || lexical {
+			return fmt.Errorf("the text ends in %q after token %d: callback %s fires although no further token can have been shifted\ntext: %q", tail, k-1, describeEvent(e, ev), broken)
+		}
+	}
+	return nil
 }
 
 // oneSided: a caller may pass only one of the two callbacks.  With only the production callback the reductions must
@@ -475,7 +545,37 @@ func TestCallbacks(t *testing.T) {
 		if err != nil {
 			t.Fatalf("%v\n%s", err, text)
 		}
-		mode := rapid.SampledFrom([]string{"parse", "parse", "evaluate", "evaluate", "plain"}).Draw(t, "mode")
+		mode := rapid.SampledFrom([]string{"parse", "parse", "evaluate", "evaluate", "plain", "broken"}).Draw(t, "mode")
+		if mode == "broken" {
+			k := rapid.IntRange(1, len(e.toks)).Draw(t, "cutAfter")
+			lexical := rapid.Bool().Draw(t, "lexical")
+			tail := rapid.SampledFrom([]string{" ~", "\n#", " \"open", " 'x'", " @lef ;", "\t\x01", " $ x"}).Draw(t, "lexicalTail")
+			if !lexical {
+				// tokens that cannot follow: the parser may reduce before it reports them, it cannot shift
+				// a token that cannot follow (decided by the reference recogniser): the parser may reduce before it reports it
+				tail = ""
+				cands := rapid.Permutation([]string{"=", ")", ">", "}}", "]", "}", "|", ";", "<", "@left"}).Draw(t, "syntaxTail")
+				for _, c := range cands {
+					ks := append(append([]string{}, ref.Kinds(e.toks[:k])...), c)
+					if _, bad := ref.ParseKinds(ks); bad == k {
+						tail = " " + c + " " + c
+						break
+					}
+				}
+				if tail == "" {
+					t.Skip("every candidate can follow")
+				}
+			}
+			cls := "broken_tail_syntax"
+			if lexical {
+				cls = "broken_tail_lexical"
+			}
+			rec.Case(fmt.Sprintf("%s|broken|%d|%s", text, k, tail), len(e.events) >= 20 && k > 1 && k < len(e.toks), cls)
+			if cerr := checkBrokenTail(text, k, tail, lexical); cerr != nil {
+				rec.Fail(t, "callbacks", input{Text: text, Mode: "broken", FailAt: k, Tail: tail, Lexical: lexical}, "%v", cerr)
+			}
+			return
+		}
 		failAt := -1
 		nred := 0
 		for _, ev := range e.events {
@@ -531,7 +631,9 @@ func TestReplay(t *testing.T) {
 		t.Fatal(err)
 	}
 	var err error
-	if in.Mode == "evaluate" {
+	if in.Mode == "broken" {
+		err = checkBrokenTail(in.Text, in.FailAt, in.Tail, in.Lexical)
+	} else if in.Mode == "evaluate" {
 		err = checkEvaluate(in.Text, in.FailAt)
 	} else {
 		_, err = checkParse(in.Text, in.FailAt)
